@@ -619,10 +619,60 @@ def shared_parameters_set(ctx, rng):
                 ctx.violation("caller-parameters-modified", f"the shared parameters dict changed {before!r} -> {shared!r}", case)
 
 
+def reused_encryption_object(ctx, rng):
+    """one JSON encryption object handed to encrypt_json several times, each time with the key set of that call (the set was rotated, another
+    tenant's set ...): every call uses the key set it was given - the key that set holds under the kid, an invalid-key-id error if it holds none"""
+    j = J.load()
+    pt = b"c14 one object, several key sets"
+    for alg, mk in (("A128KW", lambda: gen.new_oct(128)), ("A256KW", lambda: gen.new_oct(256)), ("RSA-OAEP", lambda: gen.new_rsa(2048, fresh=True)),
+                    ("ECDH-ES+A128KW", lambda: gen.new_ec("P-256")), ("ECDH-ES", lambda: gen.new_ec("P-384")), ("dir", lambda: gen.new_oct(128))):
+        for form in ("general", "flattened"):
+            ctx.ev()
+            enc = "A128GCM"
+            kids = ["k1", "k2"]
+            set_a = [{**mk(), "kid": k} for k in kids]
+            set_b = [{**mk(), "kid": k} for k in kids]          # the same kids, other keys
+            set_c = [{**mk(), "kid": "c-" + k} for k in kids]   # no key under those kids
+            pub = lambda jwks: j.KeySet([j.key(gen.public_jwk(x)) for x in jwks])
+            cls = j.jwe.GeneralJSONEncryption if form == "general" else j.jwe.FlattenedJSONEncryption
+            obj = cls({"enc": enc}, pt)
+            obj.add_recipient({"alg": alg})
+            allow = [alg, enc]
+            t1 = call(j.jwe.encrypt_json, obj, pub(set_a), algorithms=allow)
+            if not t1.ok:
+                ctx.violation(f"produce-fails:{t1.key}", f"encrypt_json with a key set failed: {t1.exc!r}", {"alg": alg, "form": form})
+                continue
+            hdrs = [t1.value.get("header")] if form == "flattened" else [r.get("header") for r in t1.value["recipients"]]
+            kid = (hdrs[0] or {}).get("kid")
+            ctx.count("produce_ops", 3)
+            ctx.count("reused_encryption_objects")
+            ctx.cell("reused-object", alg, form)
+            ctx.nontrivial(("reused", alg, form))
+            case = {"reused_encryption_object": True, "alg": alg, "form": form, "kid_written_by_first_call": kid}
+            t2 = call(j.jwe.encrypt_json, obj, pub(set_b), algorithms=allow)
+            if t2.ok:
+                mine = call(j.jwe.decrypt_json, copy.deepcopy(t2.value), j.KeySet([j.key(x) for x in set_b]), algorithms=allow)
+                if not mine.ok or mine.value.plaintext != pt:
+                    old = call(j.jwe.decrypt_json, copy.deepcopy(t2.value), j.KeySet([j.key(x) for x in set_a]), algorithms=allow)
+                    ctx.violation("reused-encryption-object:key-of-an-earlier-key-set-used", f"encrypt_json(obj, B) on an object encrypted before with key set A ({alg}, {form}): "
+                                  f"the token names kid {kid!r} but B's key of that kid cannot decrypt it ({mine.exc!r}); A's key "
+                                  f"{'can' if old.ok else 'cannot either'}", case)
+            elif t2.etype not in ("InvalidKeyIdError",):
+                ctx.open(f"second-encryption-of-an-object-refused:{t2.etype}")
+            t3 = call(j.jwe.encrypt_json, obj, pub(set_c), algorithms=allow)
+            if t3.ok:
+                mine = call(j.jwe.decrypt_json, copy.deepcopy(t3.value), j.KeySet([j.key(x) for x in set_c]), algorithms=allow)
+                if not mine.ok:
+                    ctx.violation("reused-encryption-object:token-for-a-kid-the-key-set-does-not-hold", f"encrypt_json(obj, C) on an object encrypted before with key set A "
+                                  f"({alg}, {form}): C holds no key {kid!r}, yet a token was produced (no invalid-key-id error) and C cannot decrypt it", case)
+
+
 def run_shard(ctx):
     J.load()
     J.register_drafts()
     rng = ctx.rng
+    if ctx.shard == 6:
+        reused_encryption_object(ctx, rng)
     mon = Mon(ctx)
     if ctx.shard == 4:
         import_order_cases(ctx)
@@ -653,6 +703,8 @@ REQUIRE = [("produce_ops", 600, "produce operations"), ("consume_ops", 900, "con
 def replay(ctx, case):
     J.load()
     J.register_drafts()
+    if case.get("reused_encryption_object"):
+        return reused_encryption_object(ctx, ctx.rng)
     mon = Mon(ctx)
     try:
         for _ in range(300):
